@@ -447,4 +447,23 @@ theorem shiftId_strictMono (old off : Int) (hoff : 0 ≤ off) (g g' : Int) (h : 
     shiftId old off g < shiftId old off g' := by
   unfold shiftId; split <;> split <;> omega
 
+/-- `ref_node_eliminate_active_parts` returns a non-empty slice inside the rank range (the slice loop terminates
+    and never skips a rank) -/
+theorem activeParts_progress (counts : List Int) (chunk : Int) (a0 : Nat) (h : a0 < counts.length) :
+    a0 < (activeParts counts chunk a0).1 ∧ (activeParts counts chunk a0).1 ≤ counts.length := by
+  unfold activeParts
+  have key : ∀ fuel a1 na, a0 < a1 → a1 ≤ counts.length →
+      a0 < (activeGo counts chunk fuel a1 na).1 ∧ (activeGo counts chunk fuel a1 na).1 ≤ counts.length := by
+    intro fuel
+    induction fuel with
+    | zero => intro a1 na h1 h2; exact ⟨h1, h2⟩
+    | succ f ih =>
+      intro a1 na h1 h2
+      unfold activeGo
+      split
+      · rename_i hc; exact ih (a1 + 1) _ (by omega) (by omega)
+      · exact ⟨h1, h2⟩
+  exact key _ _ _ (by omega) (by omega)
+
+
 end Refine.Lemmas.Dist
